@@ -3,11 +3,13 @@ package loadbalancer
 import (
 	"bufio"
 	"context"
+	"crypto/tls"
 	"errors"
 	"fmt"
 	"io"
 	"net"
 	"net/http"
+	"net/http/httptrace"
 	"net/http/httputil"
 	"net/url"
 	"sync"
@@ -489,15 +491,40 @@ func (b *idleTimeoutBody) Close() error {
 }
 
 // writeTimeoutConn is a backend connection on which no single write may take longer than
-// the timeout.
+// the timeout - until the connection becomes a tunnel (101 Switching Protocols): a peer that
+// does not read for a while closes nothing, and a tunnel lasts until one side closes.
 type writeTimeoutConn struct {
 	net.Conn
 	timeout time.Duration
+	tunnel  int32
 }
 
 func (c *writeTimeoutConn) Write(p []byte) (int, error) {
-	_ = c.Conn.SetWriteDeadline(time.Now().Add(c.timeout))
+	if atomic.LoadInt32(&c.tunnel) == 0 {
+		_ = c.Conn.SetWriteDeadline(time.Now().Add(c.timeout))
+	}
 	return c.Conn.Write(p)
+}
+
+// becomeTunnel takes the write timeout off the connection for good
+func (c *writeTimeoutConn) becomeTunnel() {
+	atomic.StoreInt32(&c.tunnel, 1)
+	_ = c.Conn.SetWriteDeadline(time.Time{})
+}
+
+// backendConnKey is the context key under which proxyRequest learns, through the transport's
+// client trace, which backend connection carries the exchange
+type backendConnKey struct{}
+
+type backendConnHolder struct{ conn *writeTimeoutConn }
+
+// noteBackendConn is the GotConn hook of the client trace
+func (h *backendConnHolder) noteBackendConn(info httptrace.GotConnInfo) {
+	conn := info.Conn
+	if tc, ok := conn.(*tls.Conn); ok {
+		conn = tc.NetConn()
+	}
+	h.conn, _ = conn.(*writeTimeoutConn)
 }
 
 // AddBackend adds a new backend server to the load balancer
@@ -593,6 +620,12 @@ func (lb *LoadBalancer) AddBackend(backendCfg config.BackendConfig) error {
 		// connection (101) is a tunnel that may stay quiet and is left alone.
 		if res.StatusCode != http.StatusSwitchingProtocols && res.Body != nil {
 			res.Body = newIdleTimeoutBody(res.Body, readTimeout)
+		}
+		// ... and its writes are no longer bounded either
+		if res.StatusCode == http.StatusSwitchingProtocols && res.Request != nil {
+			if h, ok := res.Request.Context().Value(backendConnKey{}).(*backendConnHolder); ok && h.conn != nil {
+				h.conn.becomeTunnel()
+			}
 		}
 		return nil
 	}
@@ -894,6 +927,11 @@ func (lb *LoadBalancer) proxyRequest(backend *Backend, w http.ResponseWriter, r 
 	// reverse proxy ends such an exchange with a 502 or aborts it, like a failure of the
 	// backend; note where it came from, for the passive health check
 	r = r.WithContext(context.WithValue(r.Context(), clientSideFailureKey{}, &rw.clientSideFailure))
+	// Which backend connection carries the exchange: should it become a tunnel, the write
+	// timeout of the connection no longer applies (see writeTimeoutConn)
+	connHolder := &backendConnHolder{}
+	r = r.WithContext(httptrace.WithClientTrace(context.WithValue(r.Context(), backendConnKey{}, connHolder),
+		&httptrace.ClientTrace{GotConn: connHolder.noteBackendConn}))
 	if r.Body != nil && r.Body != http.NoBody {
 		r.Body = &clientRequestBody{ReadCloser: r.Body, failed: &rw.clientSideFailure}
 	}
